@@ -34,7 +34,7 @@ CHECKS = {
    text="reflect.Value.MapKeys is specified as an arbitrary enumeration (keysOf); the postcondition of evaluateCollectionExpression is stated over sortedKeys(v) and cannot mention the enumeration, so it holds for every map order; the comparison closure passed to sort.Slice is verified to be the string order on the keys. (Filter.Execute over maps: see C17.)",
    note=BASE_TRUST + "; A-SORT (sort.Slice sorts).", tech=TECH, ref="DESIGN.md §6 C14"),
  "C18": dict(cat="proof",
-   text="Each option closure is verified to implement applyOpt for its constructor and to assign only its own field of *o (located assigns checked by the SSA frame walk); getOpts is verified against the left fold FoldOpts (loop invariant over the processed prefix, nil options skipped); Evaluate is verified to evaluate under exactly (tagName, hook, unknown value) of the evaluator; lemmas over applyOpt: distinct constructors commute, the last of equal constructors wins, each touches only its own field, and the neutral settings are no-ops.",
+   text="Each option closure is verified to implement applyOpt for its constructor and to assign only its own field of *o (located assigns checked by the SSA frame walk); getOpts is verified against the left fold FoldOpts (loop invariant over the processed prefix, nil options skipped); Evaluate is verified to evaluate under exactly (tagName, hook, unknown value) of the evaluator, and every function that carries the option list from there to the pointer lookup (evaluate, evaluateMatchExpression, evaluateCollectionExpression and its closure, getValue, evaluateNotPresent, Filter.Execute) is verified to pass it on unchanged (their posts are stated over the same AOpts); lemmas over applyOpt: distinct constructors commute, the last of equal constructors wins, each touches only its own field, and the neutral settings are no-ops.",
    note=BASE_TRUST + "; hook neutrality/effect inside pointerstructure is A-PS/A-HOOK; CreateEvaluator's plumbing is checked with C10.", tech=TECH, ref="DESIGN.md §6 C18"),
 }
 
@@ -46,11 +46,11 @@ CHECKS.update({
    text="No channel exists through which struct content reaches an outcome except pointerstructure.Get under the evaluator's tag: (1) an SSA walk over every function reachable from Evaluate/Execute finds no call of Field*/NumField/IsZero/DeepEqual/Equal/fmt.Sprint-style observers; (2) every content observer that is called carries a precondition (discharged by SMT) that excludes kind Struct - Len, Int/Uint/Float/Bool, String (required to be of kind String), Convert, MapIndex, Index; (3) getValue/evaluateNotPresent are verified to pass exactly (tag name, hook) of the evaluator to every Get call. Non-interference then follows on paper from the assumed contract of Get (A-PS).",
    note=BASE_TRUST + "; item (3) of the argument - Get never returns hidden content - is the dependency's (A-PS).", tech=TECH+" + SSA read-discipline walk", ref="DESIGN.md §6 C08"),
  "C10": dict(cat="proof",
-   text="CreateEvaluator and CreateFilter are verified against: evaluator xor error; error == nil exactly when grammar.Parse accepts the same bytes under the forwarded budget; a returned evaluator satisfies the precondition of Evaluate (wf tree, cache invariant) and carries the folded options; the empty-string nil Filter. grammar.Parse's own contract (accept/reject is a function of bytes and budget; an accepted input yields a well-formed Expression) is ASSUMED (A-ENGINE); newParser/setOptions and the option closures are verified (recover flag on unless Recover(false) is passed, which CreateEvaluator never does). Arbitrary bytes: bounded run (all byte strings <= 2, <= 3 over 31 bytes, token sequences <= 3) on a violation and in the thorough tier.",
-   note=BASE_TRUST + "; A-ENGINE (the PEG engine and (*parser).parse are not under WP contracts), A-STACK.", tech=TECH, ref="DESIGN.md §6 C10"),
+   text="CreateEvaluator and CreateFilter are verified against: evaluator xor error; error == nil exactly when grammar.Parse accepts the same bytes under the forwarded budget; a returned evaluator satisfies the precondition of Evaluate (wf tree, cache invariant) and carries the folded options; the empty-string nil Filter. (*parser).parse is verified together with its deferred recover closure (defer/recover rule: a panic raised anywhere after the defer statement - explicit, from a callee, or from an implicit run-time check - is modelled by a block that starts from the heap at the defer with everything the rest of the body can write havocked): no panic leaves parse when recover is on, and a recovered panic is reported as (nil, non-nil error); errList.add/err/dedupe and addErr/addErrAt carry the contracts this needs. That a SUCCESSFUL parse yields a well-formed Expression, and that accept/reject is a function of bytes and budget, remains ASSUMED on grammar.Parse (A-ENGINE: value passing of the PEG engine); newParser/setOptions and the option closures are verified (recover flag on unless Recover(false) is passed, which CreateEvaluator never does). Arbitrary bytes: bounded run (all byte strings <= 2, <= 3 over 31 bytes, token sequences <= 3) on a violation and in the thorough tier.",
+   note=BASE_TRUST + "; A-ENGINE (what the PEG engine returns on success is not under WP contracts; that it cannot panic out of Parse is), A-STACK.", tech=TECH, ref="DESIGN.md §6 C10"),
  "C11": dict(cat="proof",
-   text="Integer invariants on the real engine: parseExpr adds exactly one step and panics only when the step exceeds the budget; all 18 engine methods keep ExprCnt <= maxExprCnt, never decrease ExprCnt and never change the budget (WP with loop invariants; helpers without contracts are abstracted by the heap keys their code can write). SSA walk over the package: the counter is written only in parseExpr, the budget only in newParser/MaxExpressions$1 and read only there and at the guard. Forwarding: WithMaxExpressions(n) -> MaxExpressions(n) iff n != 0 -> maxExprCnt (0 -> MaxUint64). The three clauses of the property follow by the lock-step lemma (spec/C11.md, on paper).",
-   note=BASE_TRUST + "; A-ARITH-1 (no 2^64 wrap), that parse's recover branch reports the panic as an error is A-ENGINE; bounded relational run through the verif-only accessor ParseCounted in the thorough tier.", tech=TECH+" + SSA field-frame walk", ref="DESIGN.md §6 C11"),
+   text="Integer invariants on the real engine: parseExpr adds exactly one step and panics only when the step exceeds the budget; all 18 engine methods keep ExprCnt <= maxExprCnt, never decrease ExprCnt and never change the budget (WP with loop invariants; helpers without contracts are abstracted by the heap keys their code can write). SSA walk over the package: the counter is written only in parseExpr, the budget only in newParser/MaxExpressions$1 and read only there and at the guard. Forwarding: WithMaxExpressions(n) -> MaxExpressions(n) iff n != 0 -> maxExprCnt (0 -> MaxUint64). (*parser).parse and its deferred recover closure are verified: the budget panic raised by parseExpr ends as (nil, error), never as a success. The three clauses of the property follow by the lock-step lemma (spec/C11.md, on paper).",
+   note=BASE_TRUST + "; A-ARITH-1 (no 2^64 wrap); bounded relational run through the verif-only accessor ParseCounted in the thorough tier.", tech=TECH+" + SSA field-frame walk", ref="DESIGN.md §6 C11"),
  "C12": dict(cat="proof",
    text="Sufficient condition decided for all schedules: an interprocedural write-effect analysis on SSA (zero-annotation) shows that no store, map update, append-into-backing-array or mutating library call reachable from Evaluate, Execute, CreateEvaluator, CreateFilter or Expression targets memory the call did not allocate itself (no write through the receiver, the datum, the shared syntax tree or a package variable), and that no go statement or channel operation is reachable. With all shared accesses being reads there is no data race (A-DRF) and each call returns its sequential result (C13/C14). doMatchMatches/compileRegexps are additionally under WP contracts for the regexp cache invariant.",
    note="bxv's SSA walk; A-DRF; A-EXT-PURE (library functions other than the listed mutators do not write through their arguments); A-HOOK; regexp.Regexp is safe for concurrent use (documented).", tech="contract-style frame conditions decided by an interprocedural SSA write-effect analysis; WP for the cache invariant", ref="DESIGN.md §6 C12"),
